@@ -1,6 +1,6 @@
 """C14 — WASI path operations act on the resolved path; directory listings are complete."""
 from hypothesis import strategies as st
-from hypothesis.stateful import RuleBasedStateMachine, Bundle, rule, consumes, multiple
+from hypothesis.stateful import RuleBasedStateMachine, Bundle, rule, consumes, multiple, initialize
 
 from .. import f1, wasifs, wasihyp, cexec
 from ..wasi import Violation, AgentDied
@@ -53,6 +53,10 @@ class C14Machine(RuleBasedStateMachine):
         super().__init__()
         self.ex = wasifs.FsExecutor(npreopen=1)
         self.dirfds = [self.ex.preopens[0]]
+
+    @initialize(mode=st.sampled_from([0, 0, 1, 2, 3, 5, 7]))
+    def edge(self, mode):
+        self.ex.set_edge(mode)
 
     def pick_dir(self, i):
         live = [fd for fd in self.dirfds if not self.ex.fds[fd]['closed']]
